@@ -50,7 +50,10 @@ type Case struct {
 	Observed Observed `json:"observed"`
 	Path     string   `json:"path"`
 
-	coqClaim string // Coq term of type option (records * layout) or format specific
+	CoqClaim string `json:"coq_claim"` // Coq term of type option (records * layout)
+	CoqExtra string `json:"coq_extra,omitempty"`
+
+	coqClaim string
 	data     []byte
 	coqExtra string // format-specific extra Coq fields
 }
@@ -146,6 +149,9 @@ func coqBytes(b []byte) string {
 		} else {
 			for k := i; k < j; k++ {
 				lit = append(lit, fmt.Sprintf("%d", b[k]))
+				if len(lit) >= 1200 { // keep list literals shallow: coqc's elaborator recurses on cons depth
+					flush()
+				}
 			}
 		}
 		i = j
